@@ -7,12 +7,14 @@
 //         observer  task_scheduler_observer on task_arena(2,1): entry/exit pairing per thread
 //         isolate   a thread waiting inside this_task_arena::isolate runs only tasks of its own isolation scope
 //         gc        global_control limit L (1..2) created before the work starts: at most L-1 workers run user work
+//         gc_isolate / gc_resume   the budget at the 'wakeup' sites (isolation skip, task::resume)      isolate_nested   nested isolate scopes
 // -p L=2
 #include <oneapi/tbb/task_group.h>
 #include <oneapi/tbb/task_arena.h>
 #include <oneapi/tbb/global_control.h>
 #include <oneapi/tbb/task_scheduler_observer.h>
 #include <oneapi/tbb/parallel_for.h>
+#include <oneapi/tbb/task.h>
 #include "vfh.h"
 using namespace vfh;
 static int maxconc = 2, reserved = 1; static bool is_ext[16]; static int inflight[8], live, live_ext, live_workers, maxlive, enq_pending;
@@ -53,6 +55,30 @@ static void scenario() {
     else if (streq(k, "gc")) { int workers_live = 0;
         tbb::global_control gc(tbb::global_control::max_allowed_parallelism, L); tbb::task_arena a(3); a.initialize();
         vf_window(1); a.execute([&] { tbb::parallel_for(0, 4, [&](int) { bool w = !is_ext[vf_self()]; if (w) { if (++workers_live > L - 1) vf_fail("%d workers execute user work while max_allowed_parallelism is %d", workers_live, L); } vf_point(); vf_point(); if (w) --workers_live; }, tbb::simple_partitioner()); }); vf_window(0); }
+    else if (streq(k, "gc_isolate") || streq(k, "gc_resume")) {   // the worker budget must also hold at the rarely taken "wakeup" sites: isolation skips, task::resume
+        int workers_live = 0; tbb::global_control gc(tbb::global_control::max_allowed_parallelism, L); tbb::task_arena a(3); a.initialize();
+        auto ub = [&](const char* what) { bool w = !is_ext[vf_self()]; if (w) { if (++workers_live > L - 1) vf_fail("%s: %d workers execute user work while max_allowed_parallelism is %d and nothing is enqueued", what, workers_live, L); } vf_point(); if (w) --workers_live; };
+        if (streq(k, "gc_isolate")) {   // an isolated waiter has to skip the foreign tasks in its own pool (another application thread in the arena executes them)
+            tbb::task_group tg; auto ids = gated(1, [&](int) { is_ext[vf_self()] = true; (void)tbb::this_task_arena::max_concurrency(); }, [&](int) { a.execute([&] { tg.wait(); }); });
+            vf_window(1); a.execute([&] { for (int i = 0; i < 3; i++) tg.run([&] { ub("task skipped by the isolated waiter"); }); vf_gate_open(); tbb::this_task_arena::isolate([&] { tg.wait(); }); });
+            join_all(ids); settle(200); vf_window(0); }
+        else { static tbb::task::suspend_point spt; static int have; int r = spawn([&] { is_ext[vf_self()] = true; (void)tbb::this_task_arena::max_concurrency(); vf_gate_wait(); if (!have) vf_block_on(&have); tbb::task::resume(spt); });
+            while (vf_gate_count() < 1) vf_yield();
+            vf_window(1); vf_gate_open(); a.execute([&] { tbb::task_group tg; tg.run([&] { tbb::task::suspend([&](tbb::task::suspend_point p) { spt = p; have = 1; vf_wake(&have); }); ub("after resume"); }); for (int i = 0; i < 2; i++) tg.run([&] { ub("sibling task"); }); tg.wait(); });
+            vf_join(r); settle(200); vf_window(0); } }
+    else if (streq(k, "isolate_nested")) {   // leaving a nested isolate scope must restore the enclosing scope, not "no isolation"
+        // Main is inside scope S, has left a nested scope, and waits for a task of S that runs on the worker, while its own pool holds a task spawned outside S.
+        tbb::global_control gc(tbb::global_control::max_allowed_parallelism, 2); tbb::task_arena a(2); int warm = 0; a.execute([&] { tbb::task_group tg; tg.run([&] { warm++; }); tg.wait(); });
+        int in_iso = 0, iso_thread = -1, submitted = 0, outer2_ran = 0; tbb::task_group* gin = nullptr; int nested = (int)vf_param_int("nested", 1);
+        vf_window(1); a.execute([&] { tbb::task_group outer;
+            outer.run([&] { if (vf_self() == iso_thread) return;                       // taken by main after it left the scope: nothing to do
+                for (int i = 0; i < 300 && !gin; i++) vf_yield(); if (!gin) return;
+                gin->run([&] { for (int i = 0; i < 40 && !outer2_ran; i++) vf_yield(); }); submitted = 1; });   // a task of scope S that keeps main waiting
+            outer.run([&] { if (in_iso && vf_self() == iso_thread) vf_fail("a thread waiting inside isolate executed a task spawned outside the isolation scope%s", nested ? " (after a nested scope had returned)" : ""); outer2_ran = 1; vf_point(); });
+            tbb::this_task_arena::isolate([&] { iso_thread = vf_self(); in_iso = 1;
+                if (nested) tbb::this_task_arena::isolate([&] { tbb::task_group t2; t2.run([&] { vf_point(); }); t2.wait(); });
+                tbb::task_group in; in.run([&] { for (int i = 0; i < 300 && !submitted; i++) vf_yield(); }); gin = &in; in.wait(); gin = nullptr; in_iso = 0; });
+            outer.wait(); }); vf_window(0); }
     else vf_fail("unknown kind");
     vf_liveness(0);
     vf_outcome("maxlive=%d", maxlive);
